@@ -20,7 +20,9 @@
    "Every pc reached has code and every pop finds its frame" does follow from compile_correct_top's path (each
    of its steps is a successful ustep); (a) and (b) are facts about the SHAPE of the frames, which the
    statement of compile_correct_top does not expose.  Both are decidable on a concrete run: [mon_run] below
-   checks them while running, and mon_run_sound turns a successful check into [path_ok]. *)
+   checks them while running (CompileLimit.mon_steps / mon_sound).  DISCHARGED for every program the writer emits:
+   Proofs/CompileCfSafe.v (a verified static verifier implies path_ok) + Proofs/CompileTyEmit.v (every emitted
+   program is accepted) = Proofs/CompileSafe.v compiled_path_ok. *)
 From Verif Require Import Base.Prelude Model.Tree Model.Spec Model.VM Model.Writer Gen.RunnerGen
   Proofs.VMLimitProofs Proofs.VMLimitSimProofs Proofs.VMCapacityProofs Proofs.VMU Proofs.VMUBridge.
 From Coq Require Import Relations ZifyBool.
